@@ -8,10 +8,10 @@ through the real `lsx_fir_to_phase` / `dft_stage_init` and prints the same lines
 ```
 sel d= n= len= wl= peak= b0= e0=          selection step of lsx_fir_to_phase for phase n/d percent
     -> sel g= cls= len= post= first= last= sum=
-dft lin= L= M= fnEqL= fsLe1= nRaw= tpLen= tpPost= dftLen=
-    -> dft nDesign= numTaps= postPeak= preload= clk= step= blockLen= isz= fdok=
+dft lin= L= M= fnEqL= fsLe1= nRaw= tpLen= tpPost= dftLen=      (dftLen: what set_dft_length answered, before the padding loop)
+    -> dft nDesign= dftLen= numTaps= postPeak= preload= clk= step= blockLen= isz= fdok=
 plan lin= L= dftLen= numTaps= postPeak= preload= clk= blockLen= isz=      an exported dft stage against the clauses
-    -> plan fdok= latency= centred= shape=
+    -> plan fdok= latency= centred= shape= pad=
 pow2 x=                                   lsx_is_power_of_2
     -> pow2 <0|1>
 ```
@@ -49,7 +49,7 @@ def doDft (t : List String) : String :=
   let i : DftIn := { lin := kvn t "lin" == 1, L := kvn t "L", M := kvn t "M", fnEqL := kvn t "fnEqL" == 1, fsLe1 := kvn t "fsLe1" == 1,
                      nRaw := kvn t "nRaw", tpLen := kvn t "tpLen", tpPost := kvn t "tpPost", dftLen := kvn t "dftLen" }
   let o := dftStageInit i
-  s!"dft nDesign={o.nDesign} numTaps={o.numTaps} postPeak={o.postPeak} preload={o.preload} clk={o.clk} step={o.step} blockLen={o.blockLen} isz={o.isz} fdok={b2n (decide (FDomainOK o))}"
+  s!"dft nDesign={o.nDesign} dftLen={o.dftLen} numTaps={o.numTaps} postPeak={o.postPeak} preload={o.preload} clk={o.clk} step={o.step} blockLen={o.blockLen} isz={o.isz} fdok={b2n (decide (FDomainOK o))}"
 
 def doPlan (t : List String) : String :=
   let L := kvn t "L"; let D := kvn t "dftLen"; let nt := kvn t "numTaps"; let pp := kvn t "postPeak"
@@ -59,7 +59,8 @@ def doPlan (t : List String) : String :=
   let lat := pp == L * pre + clk && decide (clk < L)
   let cen := !lin || (nt == 2 * pp + 1 && (!isPow2L L || clk == 0))
   let shape := bl == D - (nt - 1) && isz == (D - clk + L - 1) / L && decide (1 ≤ nt) && decide (nt ≤ D)
-  s!"plan fdok={b2n fd} latency={b2n lat} centred={b2n cen} shape={b2n shape}"
+  let pad := !isPow2L L || decide (32 * L ≤ D)          -- the padding loop of dft_stage_init
+  s!"plan fdok={b2n fd} latency={b2n lat} centred={b2n cen} shape={b2n shape} pad={b2n pad}"
 
 def answer (line : String) : String :=
   let t := (line.trimAscii.toString.splitOn " ").filter (· ≠ "")
